@@ -171,6 +171,39 @@ def rule_b(ctx):
                 ok, detail = False, 'a well-known type writes more than its id byte'
     rep.add('C18.b', 'serialize_well_known_encoding / one-byte header', f, ok,
             detail or 'flag in the top bit; id, or name length minus one, in the low seven bits')
+    # the id (0 is a legal id) is never tested for truth, only for None; a type object's id is its .id
+    ok = True
+    detail = ''
+    n_obj = 0
+    ep = ('param', f.qualname, f.params()[0])
+    for p in ctx.paths(f, None, stable_attrs=True, no_inline={'serialize_128max_value'}):
+        if p.outcome != 'return':
+            continue
+        for c in p.events:
+            if c.kind == 'cond' and c.data['key'][0] == 'truth':
+                t = strip_epoch(c.data['key'][1])
+                txt = repr(t)
+                if (t[0] == 'attr' and t[2] == 'id') or ('getattr' in txt and "'id'" in txt) or \
+                        (t[0] in ('call', 'pure') and 'encoding_parser' in str(t[1])):
+                    ok = False
+                    detail = ('the id of the type (%s) is tested for truth at line %s: id 0 is a legal id and is '
+                              'treated as "no id"' % (fmt_term(t)[:60], c.line))
+        isb = [c for c in p.events if c.kind == 'cond' and c.data['key'][0] == 'isinstance' and
+               strip_epoch(c.data['key'][1]) == ep]
+        idnone = [c for c in p.events if c.kind == 'cond' and c.data['key'][0] == 'isnone' and
+                  strip_epoch(c.data['key'][1]) == ('attr', ep, 'id')]
+        if isb and isb[-1].data['value'] is False and idnone and idnone[-1].data['value'] is False:
+            n_obj += 1
+            ems = []
+            try:
+                lower_bytes_expr(p.value.term, ems, Atoms(), opaque_calls=True)
+            except LayoutError:
+                ems = []
+            src = [b[0] for b in (ems[0].bits[:7] if ems and ems[0].kind == 'int' else []) if isinstance(b, tuple)]
+            if not src or strip_epoch(src[0]) != ('attr', ep, 'id'):
+                ok, detail = False, 'a type object is not announced with its own .id'
+    rep.add('C18.b', 'serialize_well_known_encoding / a type object is written with its id, whatever its value', f,
+            ok and n_obj > 0, detail or 'known_type = encoding.id, compared with None only')
     # readers, both backends
     g = ctx.repo.func('rsocket.helpers:parse_well_known_encoding')
     buf = ('param', g.qualname, 'buffer')
